@@ -8,6 +8,7 @@
 (*  Split:   symbols "a" "b" "S" (S = the split byte).                     *)
 (*  Header:  "CL" Content-Length  "cl" content-length  "Cl" CONTENT-LENGTH *)
 (*           "CT" Content-Type    "UK" X-Unknown       ":" colon           *)
+(*           "CrL" Content<CR>Length  "CrT" content<CR>type (unknown names)  *)
 (*           "0" "1" "2" digits   "-" minus  "+" plus  "j" a junk letter   *)
 (*           "big" 20 nines       "mt" the channel's mime type  "ot" other *)
 (*           "LONG" 5000 junk letters (longer than a bufio buffer)         *)
@@ -143,7 +144,9 @@ HTok == << <<"CL", ":", "sp", "2", "CR", "LF">>,       \* 1 Content-Length: 2
            <<"UK", ":", "sp", "LONG", "CR", "LF", "CL", ":", "sp", "2", "CR", "LF">>,     \* 18 an unknown field longer than any read buffer, then Content-Length: 2
            <<"UK", ":", "sp", "j", ":", "j", ":", "CR", "LF", "CL", ":", "sp", "1", "CR", "LF">>,     \* 19 an unknown field whose value contains colons (Host: a:80), then Content-Length: 1
            <<"sp", "CR", "LF">>,                        \* 20 a line of white space: not blank (it does not end the header section), not a header line
-           <<"sp", "CL", ":", "sp", "1", "CR", "LF">> >>   \* 21 an indented Content-Length: the name of the field is " Content-Length", an unknown one
+           <<"sp", "CL", ":", "sp", "1", "CR", "LF">>,     \* 21 an indented Content-Length: the name of the field is " Content-Length", an unknown one
+           <<"CrL", ":", "sp", "2", "CR", "LF">>,          \* 22 a field named Content<CR>Length (one bit from the real name): an unknown field
+           <<"CL", ":", "sp", "1", "CR", "LF", "CrL", ":", "sp", "2", "CR", "LF", "CrT", ":", "sp", "ot", "CR", "LF">> >>   \* 23 the real length, then look-alikes of both known fields
 
 RECURSIVE Flatten(_)
 Flatten(ts) == IF ts = <<>> THEN <<>> ELSE HTok[Head(ts)] \o Flatten(Tail(ts))
